@@ -198,6 +198,17 @@ package server
 //@   assert-at call Prepare #1 : ghost_new == 1 && download.Name == blobpath(opts.digest) && download.Digest == opts.digest && download.Total == 0 && len(download.Parts) == 0
 //@   assert-at call Wait #1 : ghost_new == 1 ==> ghost_prep == 1
 //@   assert-at call Delete #1 : ghost_new == 1 && ghost_prep == 0
+// (C15) Wait's deferred release() calls b.CancelFunc when the last waiter leaves - possibly at once
+// (ctx already cancelled) and before the goroutine started by `go download.Run` was ever scheduled:
+// the cancel func has to be in place when Wait is called. For a download created here that is this
+// function's own doing; for one found in blobDownloadManager (ok: another pull stored it and may
+// still be inside Prepare) nothing establishes it - recorded in known_findings.json.
+//@   assert-at call Wait #1 : !ok ==> download.CancelFunc != nil
+//@   assert-at call Wait #1 : ok ==> download.CancelFunc != nil
+
+//@ extern func context.WithCancel
+//@   modifies nothing
+//@   ensures result.0 != nil && result.1 != nil
 
 //@ func (*blobDownload).acquire
 //@   modifies nothing
